@@ -10,14 +10,8 @@ mod verif_t {
     /// frame is remembered; any later re-simulation of that frame whose saved checksum differs makes
     /// the frame inconsistent (=> MismatchedChecksum names it), an equal one does not; frames whose
     /// cell holds another frame are skipped; history older than the window is forgotten.
-    #[kani::proof]
-    #[kani::unwind(8)]
-    #[kani::stub(alloc::fmt::format, stub_format)]
-    fn t_checksum_comparison() {
-        let cd: usize = 3;
-        let w: usize = 4;
+    fn checksum_comparison(cd: usize, w: usize, c: Frame) {
         let mut s = SyncTestSession::<CfgRL>::new(1, w, cd, 0);
-        let c: Frame = 9;
         vs::set_current_frame(&mut s.sync_layer, c);
         let f: Frame = kani::any();
         kani::assume(f >= c - cd as Frame && f <= c);
@@ -47,5 +41,21 @@ mod verif_t {
         kani::cover!(cell_holds_f && recorded && hist_cs != cell_cs && f == c - 1, "mismatch strictly inside the window");
         kani::cover!(cell_holds_f && recorded && hist_cs != cell_cs && f == c - cd as Frame, "mismatch at the window's oldest frame");
         core::mem::forget(s);
+    }
+
+    /// (instance: check distance 3, window 4, current frame 9)
+    #[kani::proof]
+    #[kani::unwind(8)]
+    #[kani::stub(alloc::fmt::format, stub_format)]
+    fn t_checksum_comparison() {
+        checksum_comparison(3, 4, 9);
+    }
+
+    /// (instance: check distance 2 - the default -, window 3, current frame 6, two players' worth of cells)
+    #[kani::proof]
+    #[kani::unwind(8)]
+    #[kani::stub(alloc::fmt::format, stub_format)]
+    fn t_checksum_comparison_cd2() {
+        checksum_comparison(2, 3, 6);
     }
 }
